@@ -143,6 +143,16 @@ def mk_ctor(t, dims, how):
         m = [0] * n
         for idx in multi_indices(dims):
             m[flat(idx, dims)] = colmajor_off(idx, dims)     # the buffer holds the elements in column-major order
+    elif how in ('vector', 'vector_colmajor', 'array_colmajor'):
+        cm = how.endswith('colmajor')
+        if how.startswith('vector'):   # the std::vector is the harness's own (its allocation is not the library's)
+            wit = 'extern "C" void @W@(const %s* p, %s& r){ std::vector<%s> v(p, p + %d); %s x(v%s); r = x; }' % (ct, tt, ct, n, tt, ', ColumnMajor' if cm else '')
+        else:
+            wit = 'extern "C" void @W@(const %s* p, %s& r){ std::array<%s,%d> arr; for(int i=0;i<%d;i++) arr[i]=p[i]; %s x(arr, ColumnMajor); r = x; }' % (ct, tt, ct, n, n, tt)
+        m = list(range(n))
+        if cm:
+            for idx in multi_indices(dims):
+                m[flat(idx, dims)] = colmajor_off(idx, dims)
     elif how == 'array':
         wit = 'extern "C" void @W@(const %s* p, %s& r){ std::array<%s,%d> arr; for(int i=0;i<%d;i++) arr[i]=p[i]; %s x(arr); r = x; }' % (ct, tt, ct, n, n, tt); m = list(range(n))
     elif how == 'initlist':
@@ -205,9 +215,9 @@ def witnesses(tier, seed):
     for dims in ([1, 5], [3, 1, 4], [1, 1, 7], [2, 1, 1, 3], [4, 1]):
         for t in T3:
             W.append(mk_alias(t, dims, 'squeeze'))
-    for dims in ([5], [2, 3], [3, 4], [2, 3, 2], [2, 2, 2, 2], [9], [4, 5]):
+    for dims in ([5], [2, 3], [3, 4], [2, 3, 2], [2, 2, 2, 2], [9], [4, 5], [3, 1, 2], [2, 3, 4]):
         for t in T3:
-            for how in ('pointer', 'pointer_colmajor', 'array', 'initlist'):
+            for how in ('pointer', 'pointer_colmajor', 'array', 'array_colmajor', 'vector', 'vector_colmajor', 'initlist'):
                 W.append(mk_ctor(t, dims, how))
     return group_sort(W)
 
@@ -219,6 +229,6 @@ def check(tier, seed):
         return finish('C20', tier, seed, R, 'other',
                       rule='(i) an operation applied through TensorMap<T,...>(buf) over a raw buffer that is only alignof(T)-aligned must leave the buffer in exactly the state plain element-wise loops leave it in (writes through the map, maps as operands, reductions and matmul over maps); every alignment-requiring access to the buffer is a violation, which decides all 64 misalignments at once; (ii) reshape/flatten/squeeze: a fixed interleaving of writes through the returned map and through the source tensor must equal the same sequence on one flat array (the map aliases the source storage); (iii) tocolumnmajor places element (i0..ik) at the column-major offset, torowmajor is its inverse, both compositions are the identity copy map — all shapes with extents <= 3 (thorough 4) of ranks 1-4 plus larger shapes; (iv) constructors from a raw buffer (row- and column-major), std::array and nested initializer lists store the given values row-major (copy-flow).',
                       trusted=['clang-14 front end and -O2 code generation', 'LLVM IR semantics as modelled by irflow', 'x86 lane table', 'offset oracles in gen/c20.py'],
-                      floors=load_floors('C20', tier), assumptions=['construction from std::vector is not analysed (the vector object is not a flat region)', 'random operation sequences are replaced by a fixed interleaving of five operations'])
+                      floors=load_floors('C20', tier), assumptions=['random operation sequences are replaced by a fixed interleaving of five operations'])
     finally:
         R.cleanup()
